@@ -61,6 +61,10 @@ def cases(tier, seed):
     for c in ds[:8 if tier == 'quick' else 150]:
         for s in SIMS:
             out.append(dict(c, k='default_tracer', sim=s, K=2))
+    for kind_ in ('wide_in', 'wide_out', 'reg'):
+        out.append({'fam': 'RUNMANY', 'kind': kind_, 'k': 'run_many', 'sim': 'compiled', 'K': 3})
+    for c in ds[:4 if tier == 'quick' else 40]:
+        out.append(dict(c, k='run_many', sim='compiled', K=3))
     for c in [c for c in ds if c['fam'] == 'SEQ'] + ds[:6 if tier == 'quick' else 60]:
         for s in ('sim', 'fast'):
             out.append(dict(c, k='two_sims', sim=s, K=2))
@@ -216,6 +220,56 @@ def do_default_tracer(case, ob, site):
                     goals.append(('default-trace:%s@%d' % (n, t), to_bv(got[n][t], w.bitwidth + 1) == to_bv(r.trace[n][t], w.bitwidth + 1),
                                   site + ':value'))
             ob.prove_all(goals, assume + list(p.pc) + list(r.pc), v, vacuity=False)
+
+
+def build_runmany(d):
+    """input and output buffers of different numbers of 64-bit words"""
+    if d['kind'] == 'wide_in':
+        a, b = pyrtl.Input(70, 'a'), pyrtl.Input(3, 'b')
+        o = pyrtl.Output(8, 'o')
+        o <<= (a[60:68] ^ b)[0:8]
+    elif d['kind'] == 'wide_out':
+        a = pyrtl.Input(5, 'a')
+        o = pyrtl.Output(130, 'o')
+        o2 = pyrtl.Output(66, 'o2')
+        o <<= pyrtl.concat(a, pyrtl.Const(0, 120), a)
+        o2 <<= pyrtl.concat(a, pyrtl.Const(1, 61))
+    else:
+        a, b = pyrtl.Input(65, 'a'), pyrtl.Input(64, 'b')
+        r = pyrtl.Register(65, 'r')
+        r.next <<= a ^ b
+        o = pyrtl.Output(65, 'o')
+        o <<= r
+    return pyrtl.working_block()
+
+
+designs.register_family('RUNMANY', build_runmany)
+
+
+def do_run_many(case, ob, site):
+    """CompiledSimulation.run([step0, step1, ...]) in ONE call is equivalent to stepping one at a time: traced inputs and outputs"""
+    block = designs.build(case)
+    K = case['K']
+    v = Vars()
+    with sym_env([block]):
+        ref = run_sim(block, K, v, kind='sim', reg_init='reset', mem_init='default', track='io')
+    cm = CompiledModel(block)
+    rs = run_compiled(cm, K, v, one_call=True)
+    ob.paths += len(ref) + len(rs)
+    for r in rs:
+        if r.exc is not None:
+            ob.prove('run(list)-no-exception(%s)' % type(r.exc).__name__, z3.Not(r.cond()), [], v, site=site + ':exception')
+            continue
+        for q in ref:
+            if q.exc is not None:
+                continue
+            goals = []
+            for w in block.wirevector_subset((pyrtl.Input, pyrtl.Output)):
+                ob.fact('run(list)-trace-length:%s' % w.name, len(r.trace.get(w.name, [])) == K, site + ':length')
+                for t in range(min(K, len(r.trace.get(w.name, [])))):
+                    goals.append(('run(list):%s@%d' % (w.name, t), to_bv(r.trace[w.name][t], w.bitwidth + 1) == to_bv(q.trace[w.name][t], w.bitwidth + 1),
+                                  site + ':value'))
+            ob.prove_all(goals, list(r.pc) + list(q.pc), v, vacuity=False)
 
 
 def do_two_sims(case, ob, site):
@@ -596,7 +650,7 @@ def do_illegal(case, ob, site):
 
 
 KINDS = {'inspect': do_inspect, 'step_multiple': do_step_multiple, 'vcd': do_vcd, 'print_trace': do_print_trace,
-         'rtl_assert': do_rtl_assert, 'default_tracer': do_default_tracer, 'two_sims': do_two_sims, 'illegal': do_illegal, 'step_multiple_resume': do_step_multiple_resume}
+         'rtl_assert': do_rtl_assert, 'default_tracer': do_default_tracer, 'two_sims': do_two_sims, 'run_many': do_run_many, 'illegal': do_illegal, 'step_multiple_resume': do_step_multiple_resume}
 
 
 def run_case(case, ob, tier):
@@ -643,6 +697,17 @@ def replay(cex):
         return bool(bad), '\n'.join(bad[:5])
     if k == 'two_sims' and block is not None:
         return replay_two_sims(c, block, mv)
+    if k == 'run_many' and block is not None:
+        ref, _, _ = concrete.sim_concrete(block, c['K'], mv, kind='sim', reg_init='reset', mem_init='default', track='io')
+        sim = pyrtl.CompiledSimulation(block=block, tracer=pyrtl.SimulationTrace(
+            wires_to_track=sorted(block.wirevector_subset((pyrtl.Input, pyrtl.Output)), key=lambda w: w.name), block=block))
+        try:
+            sim.run([concrete.input_vector(block, mv, t) for t in range(c['K'])])
+        except Exception as e:
+            return True, 'CompiledSimulation.run(list) raised %r' % (e,)
+        bad = ['%s: run(list) traced %r, stepping gives %r' % (n, list(sim.tracer.trace[n]), ref[n]) for n in ref
+               if list(sim.tracer.trace[n]) != ref[n]]
+        return bool(bad), '; '.join(bad[:4])
     if k == 'default_tracer' and block is not None:
         cls = {'sim': pyrtl.Simulation, 'fast': pyrtl.FastSimulation, 'compiled': pyrtl.CompiledSimulation}[c['sim']]
         ref, _, _ = concrete.sim_concrete(block, c['K'], mv, kind='sim', reg_init='reset', mem_init='default', track='all')
